@@ -313,7 +313,16 @@ func (a *Agent) SetTags(tags map[string]string) error {
 	}
 
 	// Set the tags in Serf, start gossiping out
-	return a.serf.SetTags(tags)
+	err := a.serf.SetTags(tags)
+	if err != nil && a.agentConf.TagsFile != "" {
+		// Serf did not take the tags (e.g. they exceed the metadata limit):
+		// make the file match the tags still in effect again, otherwise the
+		// next start would load tags the node never had.
+		if werr := a.writeTagsFile(a.conf.Tags); werr != nil {
+			a.logger.Printf("[ERR] agent: %s", werr)
+		}
+	}
+	return err
 }
 
 // loadTagsFile will load agent tags out of a file and set them in the
